@@ -10,6 +10,8 @@ COMMON_ASSUME = [
 
 ASSUME = {}
 REG = {}
+# properties whose queries count CBMC-generated safety checks (overflow, bounds, ...) in the repository code as their own
+OWN_SAFETY = {"C11", "C12", "C13", "C14", "C15", "C16"}
 
 
 def prop(pid, assumptions=None):
@@ -23,7 +25,11 @@ def prop(pid, assumptions=None):
 def queries_for(pid, tier, seed=0):
     if pid not in REG:
         return []
-    return REG[pid](tier, seed)
+    qs = REG[pid](tier, seed)
+    if pid in OWN_SAFETY:
+        for q in qs:
+            q.safety_for = tuple(q.safety_for) + (pid,)
+    return qs
 
 
 def assumptions_for(pid):
@@ -191,3 +197,37 @@ def c07(tier, seed):
 @prop("C05", ["commands (Emit/Query/QueryLargeTlv) are covered under the property's domain restriction (sender is the active mapper or none is active)"])
 def c05(tier, seed):
     return [q_sweep(tier), q_reset(tier, 2), q_other(tier, 2)]
+
+
+def q_discover(h, s, K=2, big_endian=False, frame_n=576):
+    nm = "blk_discover_h%d_s%d%s%s" % (h, s, "_be" if big_endian else "", "" if frame_n == 576 else "_%d" % frame_n)
+    return blkq(nm, "h_discover", live=["answerHello"], K=K, frame_n=frame_n, defines=["HOSTLEN=%d" % h, "SSIDLEN=%d" % s], unwind=max(K + 3, 34),
+                no_std_checks=True, big_endian=big_endian, timeout=600,
+                bounds={"hostname length": h, "SSID length": s, "attributes": "MAC 2^48, flags 2^32, ifType/IPv4/speed 2^32, IPv6 2^128, name bytes, RSSI 2^8, rate 2^16, Wi-Fi on/off, BSSID ok/fail, each getter failing independently - all symbolic",
+                        "Discover": "ToS 0/1, any addresses/generation/seq, from mapper or stranger", "byte order": "big-endian machine model" if big_endian else "little-endian machine model"},
+                desc="Discover class through real parseFrame/answerHello and all TLV writers: positional Hello oracle")
+
+
+LEN_EDGE = [0, 1, 31, 32, 33, 40]
+
+
+@prop("C03", ["hostname/SSID lengths are concrete per query (boundary set in quick, the C04 grid covers all); everything else symbolic"])
+def c03(tier, seed):
+    pairs = [(0, 0), (32, 32), (40, 1)] if tier == "quick" else [(h, s) for h in LEN_EDGE for s in (0, 32, 40)]
+    return [q_discover(h, s) for (h, s) in pairs] + [q_sweep(tier)]
+
+
+@prop("C04", ["hostname/SSID source lengths are case-split by the driver (concrete per query); quick: 6x6 boundary pairs, thorough: full 41x41 grid; all other attributes symbolic inside each query",
+              "a getter that fails leaves its value unconstrained (the property fixes no value); lengths and types are still asserted",
+              "Linux platform layer: os/linux/lltd_port.c getters over a symbolic network_interface_t; the getifaddrs-based IPv4/IPv6 getters and gethostname are outside the encoding"])
+def c04(tier, seed):
+    qs = []
+    if tier == "quick":
+        pairs = [(h, s) for h in LEN_EDGE for s in LEN_EDGE]
+        be = [(0, 0), (33, 31), (40, 40)]
+    else:
+        pairs = [(h, s) for h in range(41) for s in range(41)]
+        be = [(h, s) for h in LEN_EDGE for s in LEN_EDGE]
+    qs += [q_discover(h, s) for (h, s) in pairs]
+    qs += [q_discover(h, s, big_endian=True) for (h, s) in be]
+    return qs
